@@ -15,6 +15,12 @@ PROP = dict(
              args=["--nodes", "4", "--faults", "2", "--len", "4"], quick=7357416, thorough=0, scalable=False, exhaustive=True),
         dict(name="exhaustive-4mod-3faults-len4", harness="c11_module", flavour="asan", mode="exhaustive",
              args=["--nodes", "4", "--faults", "3", "--len", "4"], quick=0, thorough=183078126, scalable=False, exhaustive=True),
+        # the same enumeration, but the root is deleted WITHOUT the closing cleanup(): the tree is destroyed while
+        # initialised, running, stopped or half-way, and ~Module() of the root has to take the descendants down
+        dict(name="exhaustive-3mod-destroy-without-cleanup", harness="c11_module", flavour="asan", mode="exhaustive",
+             args=["--nodes", "3", "--faults", "2", "--len", "4", "--final", "0"], quick=373736, thorough=0, scalable=False, exhaustive=True),
+        dict(name="exhaustive-4mod-destroy-without-cleanup", harness="c11_module", flavour="asan", mode="exhaustive",
+             args=["--nodes", "4", "--faults", "2", "--len", "4", "--final", "0"], quick=0, thorough=7357416, scalable=False, exhaustive=True),
         # plain flavour on purpose: every case forks a child that runs the whole main framework (loop, thread pool,
         # watchdog thread); a child that stops making progress is a verdict, and with the gcc-12 ASan runtime the
         # children occasionally dead-locked inside the sanitizer's own allocator mutex under CPU load, which would be
@@ -26,22 +32,27 @@ PROP = dict(
           "named or unnamed, registered with add() or addAs()), a fault plan per onInit/onStart hook (always ok, always fails, "
           "fails on the 1st/2nd invocation only, succeeds once then fails, random bit pattern; about 0-3 faulty hooks per tree; "
           "a named module may also have its config section removed so that initialize() fails before the hook), and 0..8 calls "
-          "from {initialize,start,stop,cleanup} on the root in any order with repeats, then cleanup() and destruction (1 case in 8 "
-          "is destroyed without the final cleanup(): invariants only). After every call the hooks that ran, the return value and "
+          "from {initialize,start,stop,cleanup} on the root in any order with repeats, then cleanup() and destruction (1 case in 4 "
+          "is deleted without the closing cleanup(), most of them while the tree is still initialised or running: then the root's "
+          "destructor must run onStop/onCleanup of every descendant, in reverse order, before deleting it; only the root's own hooks "
+          "are unreachable from its own destructor and are not demanded). After every call the hooks that ran, the return value and "
           "state() of every module are judged: (1) per-module automaton and strict LIFO of Stop/Cleanup against Start/Init, "
           "parent-first registration order of Init/Start; (2) exact Init/Start hook sequence and return value from a recursive "
           "reference (a module succeeds iff its own hook and all required children succeed) whenever the tree is in sync with "
           "the reference; (3) every successful onInit/onStart matched by onCleanup/onStop after cleanup()+destruction. "
           "exhaustive: every ordered tree with <= 4 modules x required/optional per child x 2 namings x {ok, always-fail"
-          "[, fail-once]} per hook x every call sequence of length <= 4, followed by cleanup()+destruction. "
+          "[, fail-once]} per hook x every call sequence of length <= 4, followed by cleanup()+destruction; "
+          "exhaustive-*-destroy-without-cleanup: the same space with the root deleted without the closing cleanup(). "
           "main-entry-points: trees of 1..9 probes under the plain root of main::Main() (SIGTERM raised as the loop starts) or "
           "main::Start()+Stop(), each in a forked child, hooks streamed over a pipe. "
-          "A case is non-trivial when the tree has >= 2 modules, at least 3 hooks ran and at least one hook returned failure; "
+          "A case is non-trivial when the tree has >= 2 modules, at least 3 hooks ran and either a hook returned failure or "
+          "hooks ran while a root that was not cleaned up was being destroyed; "
           "distinct = distinct (tree, flags, names, fault plan, call sequence with return values) among those"),
     assumptions=[
         "hooks reached only from ~Module() on the object being destroyed run the base-class versions (C++ rule), so balance is judged "
-        "only for runs that end with an explicit cleanup() on the root; the hooks the children still receive during destruction are "
-        "held to the ordering rules",
+        "for the ROOT only in runs that end with an explicit cleanup(); when the root is deleted without it, ~Module() of the root calls "
+        "cleanup() while all descendants are still complete objects, so every descendant must be balanced (and in reverse order) by the "
+        "time it is deleted, and only the root's own onStop/onCleanup are not demanded",
         "the property does not say when the hooks of a half-built tree are compensated (inside the failing call or at cleanup()); a "
         "failing call therefore only suspends the exact-sequence reference until the tree is clean again, the verdict comes from the "
         "invariants and the final balance",
@@ -67,6 +78,9 @@ PROP = dict(
         "mech_repeated_or_noop_call", "mech_start_before_initialize",
         "mech_retry_after_failed_initialize", "mech_retry_after_failed_start",
         "mech_destroy_without_cleanup", "mech_destroy_while_running", "mech_config_section_missing",
+        "histories_ending_in_destroy_while_running", "histories_ending_in_destroy_while_inited",
+        "histories_ending_in_destroy_after_stop", "destroy_descendants_stopped_by_root_destructor",
+        "destroy_descendants_cleaned_by_root_destructor",
         "calls_judged_with_reference",
         "main_sigterm_stop_path", "runs_backend_start_stop", "main_outcome_initialize_failed", "main_outcome_start_failed",
         "main_optional_failure_tolerated",
